@@ -36,6 +36,25 @@ Theorem C18_names_kept : forall (x : number R) o vars,
   (exists f, x = NF f) \/ o = OZero \/ num_vars (set_order x o vars) = num_vars x.
 Proof. exact set_order_names. Qed.
 
+(* From conversions (dual_ops/from.rs): lowering a number of either order (or the container) to a float returns its
+   value; raising a float gives the variable-free constant of either order (well formed, no names, every
+   sensitivity zero); wrapping a float / Dual / Dual2 into the container and converting back is the identity and
+   keeps value and names *)
+Theorem C18_lowering : forall (d : dual R) (d2 : dual2 R) (x : number R),
+  f_of_dual d = re d /\ f_of_dual2 d2 = re2 d2 /\ num_to_f x = num_real x.
+Proof. exact lowering. Qed.
+Theorem C18_raise_constant : forall f : R,
+  (wf (dual_of_f f) /\ re (dual_of_f f) = f /\ vs (dual_of_f f) = [] /\ forall v, coef (dual_of_f f) v = 0) /\
+  (wf2 (dual2_of_f f) /\ re2 (dual2_of_f f) = f /\ vs2 (dual2_of_f f) = [] /\
+   (forall v, coef1 (dual2_of_f f) v = 0) /\ forall u v, coef2 (dual2_of_f f) u v = 0).
+Proof. exact raise_const. Qed.
+Theorem C18_wrap_unwrap : forall (f : R) (d : dual R) (d2 : dual2 R),
+  num_to_f (num_of_f f) = f /\ num_to_dual (num_of_dual d) = d /\ num_to_dual2 (num_of_dual2 d2) = d2 /\
+  num_real (num_of_dual d) = re d /\ num_real (num_of_dual2 d2) = re2 d2 /\
+  num_vars (num_of_f f) = [] /\ num_vars (num_of_dual d) = vs d /\ num_vars (num_of_dual2 d2) = vs2 d2 /\
+  num_to_dual (num_of_f f) = dual_of_f f /\ num_to_dual2 (num_of_f f) = dual2_of_f f.
+Proof. exact wrap_unwrap. Qed.
+
 (* arithmetic on the container = the same arithmetic on the contained types; Dual with Dual2 is
    refused (the Rust code panics), in exactly those two arms, for every operator *)
 Theorem C18_number_ops : forall p (a b : number R),
@@ -77,3 +96,6 @@ Print Assumptions C18_two_one.
 Print Assumptions C18_value_kept.
 Print Assumptions C18_names_kept.
 Print Assumptions C18_number_ops.
+Print Assumptions C18_lowering.
+Print Assumptions C18_raise_constant.
+Print Assumptions C18_wrap_unwrap.
